@@ -41,20 +41,22 @@ SPECS = {
         # which in-place tensor statements of the step run, as a function of the hyperparameter tests (the statements are named by their
         # exact source text, so a change of an operand is a change of the statement)
         Target(DS, "DistributedShampoo._add_l2_regularization", mode="decision", coq_name="add_l2_regularization_path",
-               atoms=[("weight_decay != 0.0", "weight_decay_nonzero", "bool"), ("use_decoupled_weight_decay", "use_decoupled_weight_decay", "bool")],
+               atoms=[("weight_decay != 0.0", "weight_decay_nonzero", "bool"), ("weight_decay == 0.0", "weight_decay_zero", "bool"),
+                      ("use_decoupled_weight_decay", "use_decoupled_weight_decay", "bool")],
                actions={"torch._foreach_add_(state_lists[MASKED_BLOCKED_GRADS], state_lists[MASKED_BLOCKED_PARAMS], alpha=weight_decay)": 0}),
         Target(DS, "DistributedShampoo._apply_decoupled_weight_decay", mode="decision", coq_name="apply_decoupled_weight_decay_path",
-               atoms=[("weight_decay != 0.0", "weight_decay_nonzero", "bool"), ("use_decoupled_weight_decay", "use_decoupled_weight_decay", "bool")],
+               atoms=[("weight_decay != 0.0", "weight_decay_nonzero", "bool"), ("weight_decay == 0.0", "weight_decay_zero", "bool"),
+                      ("use_decoupled_weight_decay", "use_decoupled_weight_decay", "bool")],
                actions={"torch._foreach_add_(masked_blocked_search_directions, state_lists[MASKED_BLOCKED_PARAMS], alpha=weight_decay)": 0}),
         Target(DS, "DistributedShampoo._update_momentum", mode="decision", coq_name="update_momentum_path",
-               atoms=[("momentum_param != 0.0", "momentum_nonzero", "bool"), ("use_nesterov", "use_nesterov", "bool")],
+               atoms=[("momentum_param != 0.0", "momentum_nonzero", "bool"), ("momentum_param == 0.0", "momentum_zero", "bool"), ("use_nesterov", "use_nesterov", "bool")],
                actions={"torch._foreach_mul_(state_lists[MASKED_MOMENTUM_LIST], momentum_param)": 0,
                         "torch._foreach_add_(state_lists[MASKED_MOMENTUM_LIST], masked_blocked_search_directions, alpha=1 - dampening)": 1,
                         "torch._foreach_mul_(masked_blocked_search_directions, 1 - dampening)": 2,
                         "torch._foreach_add_(masked_blocked_search_directions, state_lists[MASKED_MOMENTUM_LIST], alpha=momentum_param)": 3,
                         "torch._foreach_copy_(masked_blocked_search_directions, state_lists[MASKED_MOMENTUM_LIST])": 4}),
         Target(DS, "DistributedShampoo._compute_filtered_grad_list", mode="decision", coq_name="compute_filtered_grad_list_path",
-               atoms=[("beta1 != 0.0", "beta1_nonzero", "bool"), ("beta3 != beta1", "beta3_ne_beta1", "bool"), ("beta3 == beta1", "beta3_eq_beta1", "bool"),
+               atoms=[("beta1 != 0.0", "beta1_nonzero", "bool"), ("beta1 == 0.0", "beta1_zero", "bool"), ("beta3 != beta1", "beta3_ne_beta1", "bool"), ("beta3 == beta1", "beta3_eq_beta1", "bool"),
                       ("use_bias_correction", "use_bias_correction", "bool")],
                actions={"masked_filtered_grad_list = torch._foreach_lerp(state_lists[MASKED_FILTERED_GRAD_LIST], state_lists[MASKED_BLOCKED_GRADS], weight=1 - beta3)": 0,
                         "masked_filtered_grad_list = state_lists[MASKED_FILTERED_GRAD_LIST]": 1,
@@ -63,6 +65,16 @@ SPECS = {
                         "masked_filtered_grad_list = torch._foreach_div(masked_filtered_grad_list, bias_correction1)": 4,
                         "masked_filtered_grad_list = tuple((filtered_grad.clone() for filtered_grad in masked_filtered_grad_list))": 5,
                         "masked_filtered_grad_list = state_lists[MASKED_BLOCKED_GRADS]": 6}),
+        Target(DS, "DistributedShampoo._precondition_and_grafting", mode="decision", coq_name="precondition_and_grafting_path",
+               atoms=[("use_grafting_method", "use_grafting_method", "bool"), ("grafting_config_not_none", "grafting_config_not_none", "bool")],
+               actions={"masked_blocked_search_directions = state_lists[GRAFTING_PRECONDITIONER_LIST].precondition(masked_grad_list=masked_filtered_grad_list)": 0,
+                        "masked_blocked_search_directions = state_lists[SHAMPOO_PRECONDITIONER_LIST].precondition(masked_grad_list=masked_filtered_grad_list)": 1,
+                        "grafting_norm_list = torch._foreach_norm(state_lists[GRAFTING_PRECONDITIONER_LIST].precondition(masked_grad_list=masked_filtered_grad_list))": 2,
+                        "shampoo_norm_list = torch._foreach_norm(masked_blocked_search_directions)": 3,
+                        "norm_dtype_info = torch.finfo(shampoo_norm_list[0].dtype)": 4,
+                        "torch._foreach_add_(shampoo_norm_list, max(1e-16, norm_dtype_info.tiny * norm_dtype_info.eps))": 5,
+                        "torch._foreach_div_(grafting_norm_list, shampoo_norm_list)": 6,
+                        "torch._foreach_mul_(masked_blocked_search_directions, grafting_norm_list)": 7}),
         Target(PLIST, "ShampooPreconditionerList._get_inverse_roots_from_override", coq_name="shampoo_get_inverse_roots", **ROOTS),
         Target(PLIST, "EigenvalueCorrectedShampooPreconditionerList._get_inverse_roots_from_override", coq_name="eigcorr_get_inverse_roots", **ROOTS),
     ]),
